@@ -44,7 +44,7 @@ def case_strategy():
         n = draw(st.integers(2, 6))
         nodes = []
         mid = 0
-        used = {}  # node -> set of ann keys it owns (a node never re-registers a signature it already owns)
+        used = {}
         for i in range(n):
             if i == 0 or draw(st.integers(0, 5)) == 0:
                 kind, parents = "root", []
@@ -69,8 +69,8 @@ def case_strategy():
                     m["ann"] = ["obj"] if force_obj else draw(st.sampled_from(LEAF_ANNS))
                 m["rec"] = "self" if (mk != "leaf" and kind == "root" and draw(st.integers(0, 3)) == 0) else "recurse"
                 key = (R.canon(GR.method_ann(m)), m["prio"])
-                if key in own:
-                    continue
+                if key in own and draw(st.integers(0, 2)):
+                    continue  # (1 time in 3 the node registers the signature again: the newer method replaces the older)
                 own.add(key)
                 methods.append(m)
                 mid += 1
